@@ -1,4 +1,4 @@
-CONSTANTS MaxLen = 2
+CONSTANTS MaxLen = 2  MinEdits = 0  MaxEdits = 0
           CoinSet = {"BTC"}  SvSet = {"base"}  IdxSet = {1}
           ScriptIds = {1}  SigSetIds = {2, 3}  BeginSet = {0, 1}  HtBase = {1}
 CONSTANT Key <- BadKeyNoBegin
